@@ -4,6 +4,7 @@
 #include "nmtools/array/view/decorator.hpp"
 
 #include "nmtools/array/index/concatenate.hpp"
+#include "nmtools/array/index/wrap_axis.hpp"
 #include "nmtools/utility/shape.hpp"
 
 namespace nmtools::view
@@ -117,12 +118,15 @@ namespace nmtools::view
         } else {
             auto ashape = shape(lhs);
             auto bshape = shape(rhs);
-            [[maybe_unused]] const auto [success, shape] = index::shape_concatenate(ashape,bshape,axis);
+            // a negative axis counts from the end
+            auto n_axis = index::wrap_axis(axis,dim<true>(lhs));
+            using n_axis_t = decltype(n_axis);
+            [[maybe_unused]] const auto [success, shape] = index::shape_concatenate(ashape,bshape,n_axis);
             // TODO: use nmtools_assert macro
             nmtools_cassert (success
                 , "unsupported concatenate, mismatched shape"
             );
-            return decorator_t<concatenate_t,lhs_array_t,rhs_array_t,axis_t>{{lhs,rhs,axis}};
+            return decorator_t<concatenate_t,lhs_array_t,rhs_array_t,n_axis_t>{{lhs,rhs,n_axis}};
         }
     } // concatenate
 } // namespace nmtools::view
